@@ -394,6 +394,15 @@ def run_unit(component, seed, count, tag=''):
 # ---------------------------------------------------------------------------
 
 # monitor failure code -> properties it speaks about (see coq/theories/MonWire.v, MonApp.v)
+def failure_props(f):
+    """properties a monitor failure speaks about: by code, plus C07 when a caller was handed a
+    success it should not have got in a scenario whose disturbance was a cancellation / deadline"""
+    props = list(code_props(f['code']))
+    if f['code'] in (211, 1606, 202) and 'cancel' in f.get('sig', '') and 'C07' not in props:
+        props.append('C07')
+    return props
+
+
 def code_props(code):
     table = {1302: ['C13', 'C08'], 1307: ['C13', 'C06'], 1313: ['C13', 'C11'], 1315: ['C13', 'C11'], 1103: ['C11', 'C13'],
              602: ['C06', 'C05'], 603: ['C06', 'C05'], 901: ['C09', 'C15'], 1104: ['C11'], 1105: ['C11'],
@@ -748,7 +757,7 @@ class Verdict:
             self.broken.append({'kind': 'correspondence', 'what': 'M2 %s could not run' % r['family'], 'detail': r['error']})
             return
         for f in r['failures']:
-            if (codes(f['code']) if codes else (self.pid in code_props(f['code']))):
+            if (codes(f['code']) if codes else (self.pid in failure_props(f))):
                 self.concrete.append({'key': 'M2:%s:%d' % (r['family'], f['code']), 'kfkey': 'code%d/%s' % (f['code'], f.get('sig', '?')), 'where': 'M2 ' + r['family'],
                                       'scenario': f['scenario'], 'code': f['code'], 'meaning': CODE_TEXT.get(f['code'], '?'),
                                       'action': f['act'], 'a': f['a'], 'b': f['b'], 'seed': r['seed'], 'trace': r.get('trace')})
